@@ -108,7 +108,11 @@ example : RdReach (Reader.new 8) [0xD0, 0x00] ((Reader.new 8).commit [0xD0]) [0x
   RdReach.read (r1 := Reader.new 8) (n := 1) (k := 1) RdReach.init rfl rfl (by decide) (by decide)
     (by decide)
 
-/-- **Partial writes of a queued packet** (`perform_outbound_step`, `SendState::set_written`). For
+/-- **Partial writes of a queued packet** — the arithmetic of the write loop (`SendState::set_written`,
+`SendState.afterWrite`), stated about the list function `stepWrites` that iterates it; no theorem ties
+`stepWrites` to `doStepWrite` run by run (the machine-level statements about writes are C01Wire and
+C02Wire: what is on the wire is the retained bytes, whole, whatever the acceptances), and an acceptance
+of 0 bytes (`WriteZero`) is outside it. For
 a packet of `len` bytes of which `written < len` have gone out, and any sequence of partial
 acceptances by the transport (each at least one byte, at most what was offered — the offer is
 always `bytes[written..]`): the chunks accepted so far, concatenated, are exactly the next `total`
